@@ -118,8 +118,9 @@ void vrt_lin_assert(const struct vrt_lin_spec *spec, const char *what)
 	vrt_quiet_begin();
 	ok = vrt_lin_check(spec);
 	vrt_quiet_end();
+	vrt_h_dump(buf, sizeof(buf));
+	vrt_sample("%s history (linearizable: %s):%s", what, ok ? "yes" : "NO", buf);
 	if (!ok) {
-		vrt_h_dump(buf, sizeof(buf));
 		vrt_fail("%s: history not linearizable:%s", what, buf);
 	}
 }
